@@ -884,6 +884,10 @@ func (e *Engine) verifyFn(fn *ssa.Function, con *Contract) *VC {
 	if ifaceCon != nil {
 		allReq = append(allReq, ifaceCon.Requires...)
 	}
+	for _, c := range con.Assumes {
+		vc.noteAssumed("assumed at entry of " + short + " and not checked at its call sites: " + c.Label + ": " + c.Text)
+	}
+	allReq = append(allReq, con.Assumes...)
 	for _, c := range allReq {
 		s, err := a.clauseEnv(env, c).evalBool(c.Expr)
 		if err != nil {
